@@ -6,7 +6,7 @@
    Variant 0 of every height carries <<invoke, l1 handler, reverted invoke>>.  Variant 1 is chosen
    so that a reorg at each height exercises a different relation between the dropped and the new
    block's transactions (what the tx-hash index must survive):
-     height 0  DISJOINT sets of EQUAL length <<l1 handler', deploy account, declare>>: whichever
+     height 0  DISJOINT sets of EQUAL length <<l1 handler', deploy, declare>>: whichever
                variant is reverted, every index of the dropped block is occupied by a different
                transaction of the fork block (a stale tx-hash entry would answer with THAT one);
      height 1  SHARES the L1 handler with variant 0 but at ANOTHER index (the hash must be
@@ -18,7 +18,7 @@ EXTENDS RpcRead
 
 MCTxs(n, v) ==
   IF v = 0 THEN <<10 * n + 1, 10 * n + 2, 10 * n + 3>>
-  ELSE CASE n = 0 -> <<7, 4, 5>>
+  ELSE CASE n = 0 -> <<7, 6, 5>>
          [] n = 1 -> <<12, 14, 15>>
          [] n = 2 -> <<>>
          [] OTHER -> <<10 * n + 6, 10 * n + 7, 10 * n + 4, 10 * n + 5>>
